@@ -102,27 +102,31 @@ theorem nth_refines {σ : Type} (inv : σ → Prop) (win : σ → List Nat) (one
   | succ k ih =>
     intro it hi
     obtain ⟨hinv, hs⟩ := h1 it hi
-    have hnf : ∀ f, (one it).2 ≠ Out.fault f := by
-      intro f; have := next_out (win it) f
-      have h2 : (specStep (win it) .next).2 = (one it).2 := by
-        have := congrArg Prod.snd hs; simpa using this
-      rwa [h2] at this
-    obtain ⟨hinv', hs'⟩ := ih (one it).1 hinv
-    have hstep : stepNth one (k + 1) it = stepNth one k (one it).1 := by
-      rw [stepNth]
-      split
-      · next f hr => exact absurd hr (hnf f)
-      · rfl
-    rw [hstep]
-    refine ⟨hinv', ?_⟩
-    rw [← hs']
-    have hw : win (one it).1 = (win it).tail := by
-      have := congrArg Prod.fst hs
-      cases hwi : win it <;> simp [specStep, hwi] at this ⊢ <;> first | exact this.symm | exact this
-    rw [hw]
-    cases win it with
-    | nil => simp [specStep]
-    | cons x xs => simp [specStep]
+    cases hw : win it with
+    | nil =>
+      -- exhausted: `next` answers `None`, the provided method stops there
+      rw [hw] at hs
+      have ho : (one it).2 = Out.none := by
+        have := congrArg Prod.snd hs; simpa [specStep] using this.symm
+      have hw' : win (one it).1 = [] := by
+        have := congrArg Prod.fst hs; simpa [specStep] using this.symm
+      have hstep : stepNth one (k + 1) it = ((one it).1, Out.none) := by
+        rw [stepNth]; simp only [ho]
+      rw [hstep]
+      exact ⟨hinv, by simp [specStep, hw']⟩
+    | cons x xs =>
+      rw [hw] at hs
+      have ho : (one it).2 = Out.some x := by
+        have := congrArg Prod.snd hs; simpa [specStep] using this.symm
+      have hw' : win (one it).1 = xs := by
+        have := congrArg Prod.fst hs; simpa [specStep] using this.symm
+      obtain ⟨hinv', hs'⟩ := ih (one it).1 hinv
+      have hstep : stepNth one (k + 1) it = stepNth one k (one it).1 := by
+        rw [stepNth]; simp only [ho]
+      rw [hstep]
+      refine ⟨hinv', ?_⟩
+      rw [← hs', hw']
+      simp [specStep]
 
 theorem dropLast_take (l : List Nat) (k : Nat) :
     l.dropLast.take (l.dropLast.length - (k + 1)) = l.take (l.length - (k + 1 + 1)) := by
@@ -152,28 +156,32 @@ theorem nthBack_refines {σ : Type} (inv : σ → Prop) (win : σ → List Nat) 
   | succ k ih =>
     intro it hi
     obtain ⟨hinv, hs⟩ := h1 it hi
-    have hnf : ∀ f, (one it).2 ≠ Out.fault f := by
-      intro f; have := back_out (win it) f
-      have h2 : (specStep (win it) .nextBack).2 = (one it).2 := by
-        have := congrArg Prod.snd hs; simpa using this
-      rwa [h2] at this
-    obtain ⟨hinv', hs'⟩ := ih (one it).1 hinv
-    have hstep : stepNth one (k + 1) it = stepNth one k (one it).1 := by
-      rw [stepNth]
-      split
-      · next f hr => exact absurd hr (hnf f)
-      · rfl
-    rw [hstep]
-    refine ⟨hinv', ?_⟩
-    rw [← hs']
-    have hw : win (one it).1 = (win it).dropLast := by
-      have := congrArg Prod.fst hs
-      simp only [specStep] at this
-      rcases List.eq_nil_or_concat (win it) with h | ⟨ys, y, h⟩
-      · rw [h] at this ⊢; simpa using this.symm
-      · rw [h] at this ⊢; simpa using this.symm
-    rw [hw]
-    simp only [specStep, dropLast_take, reverse_dropLast_getElem?]
+    rcases List.eq_nil_or_concat (win it) with hw | ⟨ys, y, hw⟩
+    · rw [hw] at hs
+      have ho : (one it).2 = Out.none := by
+        have := congrArg Prod.snd hs; simpa [specStep] using this.symm
+      have hw' : win (one it).1 = [] := by
+        have := congrArg Prod.fst hs; simpa [specStep] using this.symm
+      have hstep : stepNth one (k + 1) it = ((one it).1, Out.none) := by
+        rw [stepNth]; simp only [ho]
+      rw [hstep, hw]
+      exact ⟨hinv, by simp [specStep, hw']⟩
+    · rw [hw] at hs
+      have ho : (one it).2 = Out.some y := by
+        have := congrArg Prod.snd hs; simpa [specStep] using this.symm
+      have hw' : win (one it).1 = ys := by
+        have := congrArg Prod.fst hs; simpa [specStep] using this.symm
+      obtain ⟨hinv', hs'⟩ := ih (one it).1 hinv
+      have hstep : stepNth one (k + 1) it = stepNth one k (one it).1 := by
+        rw [stepNth]; simp only [ho]
+      rw [hstep]
+      refine ⟨hinv', ?_⟩
+      rw [← hs', hw', hw]
+      have h1' : (ys ++ [y]).dropLast = ys := by simp
+      have := dropLast_take (ys ++ [y]) k
+      have h2 := reverse_dropLast_getElem? (ys ++ [y]) k
+      rw [h1'] at this h2
+      simp only [specStep, this, h2, List.concat_eq_append]
 
 /-- draining through a refined `next` with enough fuel: all remaining elements are consumed, counted,
     and the last one is remembered -/
